@@ -27,6 +27,8 @@ func checkC14(r *Run) {
 	outerReadOnlyRule(r, "R7")
 	r.Rule("R8", "no lock is taken twice: every function of the evaluator package gives back each sync lock it takes at every exit, and never calls - while holding a mutex - a method that locks the same mutex again (sync mutexes are not re-entrant: a second read lock deadlocks with a waiting writer)", 1)
 	nestedLocksRule(r, "R8")
+	r.Rule("R9", "the fields of a context in use are not written without its lock: a store into a field of a Context addresses a context the function has just allocated, or is dominated by a Lock of that context's mutex", 1)
+	contextFieldWritesRule(r, "R9")
 }
 
 const (
